@@ -78,7 +78,7 @@ Lemma refresh_fold_ext : forall l cur batch cur' batch',
 Proof.
   induction l as [|e r IH]; intros cur batch cur' batch' H; cbn [fold_left] in H.
   - inversion H. reflexivity.
-  - unfold refresh_step at 2 in H. cbv zeta in H. apply IH in H. rewrite H. apply (proj2 (set_input_we _ _ _)).
+  - unfold refresh_step at 2 in H. cbv zeta in H. apply IH in H. rewrite H. rewrite (proj2 (set_input_we _ _ _)). reflexivity.
 Qed.
 
 (** every operation keeps the structural invariant *)
@@ -99,17 +99,97 @@ Proof.
       eapply refresh_fold_SInv; [exact HS1| |exact Er]. intros e He. eapply (sk_ext _ _ _ HS1). exact He. }
     assert (HS3 : SInvM p (fold_left (fun a '(i, v) => input_set a i v) sets inp) (set_visited (set_stat s2 0%N) []))
       by (eapply SInvM_same; [| | |exact HS2]; reflexivity).
-    pose proof (propagate_np pfuel (set_visited (set_stat s2 0%N) []) batch2) as Pp.
+    pose proof (propagate_np True pfuel (set_visited (set_stat s2 0%N) []) batch2) as Pp.
     destruct (propagate pfuel (set_visited (set_stat s2 0%N) []) batch2) as [s4| | |] eqn:Ep; cbn in Pp; try contradiction;
       inversion H; subst; try exact HS3.
     destruct Pp as (N1 & N2 & N3). eapply SInvM_same; eauto.
   - unfold step_f in H. cbn [apply_op].
-    pose proof (proj1 (prog_all p rk Hrk Hproj Hkeys Htargets inp fuel)) as PQ.
+    (* with the empty assumption [False] the progress statement only says what a COMPLETED request leaves *)
+    pose proof (proj1 (prog_all p rk Hrk Hproj Hkeys Htargets inp False (fun g => match g with end) fuel)
+                  [] CUser None n (set_log s []) (EConst 0) HS0 (fun g => match g with end) (StkOk_nil rk n) (fun _ => eq_refl) I) as PQ.
     destruct (query_for p None fuel [] CUser None n (set_log s [])) as [[[[o fr] ms] s1]| | |] eqn:Eq;
       try (inversion H; subst; exact HS0).
-    (* the invariant of the result state is obtained without any assumption on n: rerun the step *)
-    destruct o as [[z|]|]; inversion H; subst; clear H; exact (query_keeps_SInv _ _ _ _ _ _ _ HS0 Eq).
+    cbn in PQ. destruct PQ as (HS1 & _).
+    destruct o as [[z|]|]; inversion H; subst; exact HS1.
   - cbn in H. inversion H. subst. cbn [apply_op]. eapply SInvM_same; [| | |exact HS0]; reflexivity.
   - cbn in H. inversion H. subst. cbn [apply_op]. eapply SInvM_same; [| | |exact HS0]; reflexivity.
 Qed.
+
+(** the query itself: with every readable input set and the node declared, no panic and no deadlock *)
+Lemma nstep_query : forall s n s' r inp,
+  SInvM p inp s -> alookup p n <> None ->
+  (forall b e d, alookup p b = Some e -> In d (expr_reads e) -> nkind d = KInput -> input_get inp (nidx d) <> None) ->
+  step_f fuel pfuel p s (OQuery n) = (s', r) ->
+  (exists z, r_out r = RValue z) \/ r_out r = RFuel.
+Proof.
+  intros s n s' r inp HS Hn Hcov H.
+  assert (HS0 : SInvM p inp (set_log s [])) by (eapply SInvM_same; [| | |exact HS]; reflexivity).
+  assert (Hask : True -> Askable p (set_log s []) n).
+  { intros _. right. right. split; [|exact Hn]. destruct (alookup p n) as [e|] eqn:He; [|congruence]. eapply Hkeys; eauto. }
+  pose proof (proj1 (prog_all p rk Hrk Hproj Hkeys Htargets inp True (fun _ => Hcov) fuel)
+                [] CUser None n (set_log s []) (EConst 0) HS0 Hask (StkOk_nil rk n) (fun _ => eq_refl) I) as PQ.
+  unfold step_f in H.
+  destruct (query_for p None fuel [] CUser None n (set_log s [])) as [[[[o fr] ms] s1]| | |] eqn:Eq; cbn in PQ.
+  - destruct (cuser_value _ _ _ _ _ _ _ _ Eq) as [z ->]. inversion H. left. eexists. reflexivity.
+  - right. inversion H. reflexivity.
+  - exfalso. apply PQ. exact I.
+  - exfalso. apply PQ. exact I.
+Qed.
+
+Lemma nrun : forall ops s inp i n r,
+  SInvM p inp s -> nth_error ops i = Some (OQuery n) -> alookup p n <> None ->
+  nth_error (run_history_f fuel pfuel p s ops) i = Some r ->
+  inputs_cover p (fold_left apply_op (firstn i ops) inp) ->
+  (exists z, r_out r = RValue z) \/ r_out r = RFuel.
+Proof.
+  induction ops as [|o rest IH]; intros s inp i n r HS Hop Hn Hres Hcov; [destruct i; discriminate|].
+  cbn [run_history_f] in Hres. destruct (step_f fuel pfuel p s o) as [s' x] eqn:Es.
+  destruct i as [|i]; cbn [nth_error firstn fold_left] in *.
+  - inversion Hop. inversion Hres. subst o x. eapply nstep_query; [exact HS|exact Hn| |exact Es].
+    intros b e d He. apply (Hcov b e d). apply alookup_In. exact He.
+  - eapply (IH s' (apply_op inp o)); eauto. eapply nstep_inv; eauto.
+Qed.
 End Steps.
+
+Theorem model_no_panic_x_f : model_no_panic_x_statement_f.
+Proof.
+  intros fuel pfuel p ops i n r Hwf Hop Hn Hres Hcov.
+  destruct (wf_model_x_facts p Hwf) as (rk & Hrk & Hproj & Hkeys).
+  assert (Htargets : forall n e d, alookup p n = Some e -> In d (expr_reads e) ->
+            is_mtarget_kind (nkind d) = true \/ (is_mexec_kind (nkind d) = true /\ alookup p d <> None)).
+  { intros b e d He. apply (wfx_targets p Hwf b e d). apply alookup_In. exact He. }
+  eapply (nrun p rk Hrk Hproj Hkeys Htargets fuel pfuel ops init_state [] i n r); eauto.
+  apply SInvM_init.
+Qed.
+Theorem model_no_panic_x : model_no_panic_x_statement.
+Proof.
+  intros p ops i n r Hwf Hop Hn Hres Hcov. rewrite run_history_is_f in Hres.
+  eapply model_no_panic_x_f; eauto.
+Qed.
+
+(** the same for programs without external reads ([wf_model_g]) and for the plain fragment *)
+Theorem model_no_panic_g : forall p ops i n r, wf_model_g p ->
+  nth_error ops i = Some (OQuery n) -> alookup p n <> None ->
+  nth_error (run_history p init_state ops) i = Some r ->
+  inputs_cover p (inputs_after (firstn i ops)) ->
+  (exists z, r_out r = RValue z) \/ r_out r = RFuel.
+Proof. intros p ops i n r Hwf. apply model_no_panic_x. apply wf_model_x_of. exact Hwf. Qed.
+Theorem model_no_panic : forall p ops i n r, wf_model p ->
+  nth_error ops i = Some (OQuery n) -> alookup p n <> None ->
+  nth_error (run_history p init_state ops) i = Some r ->
+  inputs_cover p (inputs_after (firstn i ops)) ->
+  (exists z, r_out r = RValue z) \/ r_out r = RFuel.
+Proof. intros p ops i n r Hwf. apply model_no_panic_g. apply wf_model_g_of. exact Hwf. Qed.
+
+(** both premises are needed: a query that reaches an input never set, and a query of an undeclared
+    node, do answer [RPanic] (and the later, covered query of the same history is fine) *)
+Example mex_uncovered :
+  map r_out (run_history mex_prog init_state
+               [ OSession [(0%N, 1); (1%N, 1)] false; OQuery (mex_N 1); OQuery (mex_N 7);
+                 OSession [(2%N, 10)] false; OQuery (mex_N 1) ]) =
+  [ RSession [SFresh; SFresh]; RPanic; RPanic; RSession [SFresh]; RValue 13 ].
+Proof. vm_compute. reflexivity. Qed.
+
+Print Assumptions model_no_panic_x_f.
+Print Assumptions model_no_panic_x.
+Print Assumptions model_no_panic.
